@@ -9,7 +9,9 @@ class C12(vlib.Spec):
     props_vo = "theories/Props/C12.vo"
     theorems = ["C12_map", "C12_map_terminates", "C12_filter", "C12_filter_terminates",
                 "C12_filter_map", "C12_filter_map_terminates",
-                "C12_flat_map", "C12_flatten", "C12_unzip_partial", "C12_unzip_terminates", "C12_fanout_partial", "C12_fanout_terminates",
+                "C12_flat_map", "C12_flatten", "C12_flat_map_terminates", "C12_flatten_terminates",
+                "C12_inspect", "C12_unzip_fixed", "C12_fanout_fixed", "C12_fanout_fixed_terminates",
+                "C12_unzip_fixed_terminates", "C12_unzip_partial", "C12_unzip_terminates", "C12_fanout_partial", "C12_fanout_terminates",
                 "C12_fanout_strict_refuted", "C12_unzip_strict_refuted"]
     crate, group, binary = "h_push", "light", "h_push"
     shrink_rounds = 20
